@@ -11,6 +11,7 @@ import (
 	"github.com/gopacket/gopacket/layers"
 
 	"verif/harness/internal/corpus"
+	"verif/harness/internal/gen"
 	"verif/harness/internal/vlib"
 )
 
@@ -19,6 +20,7 @@ var (
 	corp     *corpus.Corpus
 	dlTypes  map[gopacket.LayerType]reflect.Type // concrete struct types whose pointer implements DecodingLayer
 	dlList   []gopacket.LayerType
+	dlImpl   map[gopacket.LayerType][]reflect.Type // every DecodingLayer implementation, by layer type it can decode
 )
 
 var _ = layers.LayerTypeEthernet
@@ -62,6 +64,30 @@ func getCorpus() *corpus.Corpus {
 					}
 				})
 			}
+		}
+		// every exported struct type of the library that implements DecodingLayer (constructors generated from the source
+		// tree), filed under each layer type it says it can decode: the decoded corpus alone misses implementations that
+		// share a layer type (OSPFv3, IGMP v1/v2) or that no packet decoder constructs (IPv6ExtensionSkipper)
+		dlImpl = map[gopacket.LayerType][]reflect.Type{}
+		var names []string
+		for n := range gen.New {
+			names = append(names, n)
+		}
+		sort.Strings(names)
+		for _, n := range names {
+			dl, ok := gen.New[n]().(gopacket.DecodingLayer)
+			if !ok {
+				continue
+			}
+			rt := reflect.TypeOf(dl).Elem()
+			vlib.Guard(func() {
+				for _, t := range dl.CanDecode().LayerTypes() {
+					dlImpl[t] = append(dlImpl[t], rt)
+					if _, ok := dlTypes[t]; !ok {
+						dlTypes[t] = rt
+					}
+				}
+			})
 		}
 		for t := range dlTypes {
 			dlList = append(dlList, t)
